@@ -83,3 +83,132 @@ pub mod vsync {
 pub mod vthread {
     pub use shuttle::thread::*;
 }
+
+/// Drop-in for `std::time` in the instrumented build: a simulated clock. Every reading of the
+/// clock advances it by a jump drawn from a PRNG seeded by the harness for each execution
+/// (microseconds most of the time; seconds, hours, days and years now and then), so that code
+/// whose result depends on elapsed time meets clock jumps deterministically and replayably.
+pub mod vtime {
+    pub use std::time::Duration;
+    use std::sync::atomic::{AtomicU64, Ordering};
+
+    static NOW_NANOS: AtomicU64 = AtomicU64::new(1_000_000_000_000);
+    static RNG: AtomicU64 = AtomicU64::new(0x9e3779b97f4a7c15);
+    static READS: AtomicU64 = AtomicU64::new(0);
+    static BIG_JUMPS: AtomicU64 = AtomicU64::new(0);
+
+    /// Called by the harness at the start of every execution.
+    pub fn reseed(seed: u64) {
+        RNG.store(seed | 1, Ordering::Relaxed);
+    }
+    /// (clock readings, jumps of one second or more) since process start
+    pub fn stats() -> (u64, u64) {
+        (READS.load(Ordering::Relaxed), BIG_JUMPS.load(Ordering::Relaxed))
+    }
+    fn next() -> u64 {
+        let mut z = RNG.fetch_add(0x9e3779b97f4a7c15, Ordering::Relaxed).wrapping_add(0x9e3779b97f4a7c15);
+        z = (z ^ (z >> 30)).wrapping_mul(0xbf58476d1ce4e5b9);
+        z = (z ^ (z >> 27)).wrapping_mul(0x94d049bb133111eb);
+        z ^ (z >> 31)
+    }
+    fn read_clock() -> u64 {
+        READS.fetch_add(1, Ordering::Relaxed);
+        let r = next();
+        let jump = match r % 100 {
+            0..=69 => 1_000 + (r >> 8) % 1_000_000,                          // 1 us .. 1 ms
+            70..=84 => 1_000_000_000 + (r >> 8) % 1_000_000_000,             // 1 .. 2 s
+            85..=94 => 60_000_000_000 + (r >> 8) % 3_540_000_000_000,       // 1 min .. 1 h
+            95..=98 => 86_400_000_000_000 + (r >> 8) % 2_505_600_000_000_000, // 1 .. 30 days
+            _ => 315_360_000_000_000_000,                                    // ten years
+        };
+        if jump >= 1_000_000_000 {
+            BIG_JUMPS.fetch_add(1, Ordering::Relaxed);
+        }
+        NOW_NANOS.fetch_add(jump, Ordering::Relaxed) + jump
+    }
+
+    #[derive(Clone, Copy, Debug, PartialEq, Eq, PartialOrd, Ord, Hash)]
+    pub struct Instant(u64);
+    impl Instant {
+        pub fn now() -> Instant {
+            Instant(read_clock())
+        }
+        pub fn elapsed(&self) -> Duration {
+            Duration::from_nanos(read_clock().saturating_sub(self.0))
+        }
+        pub fn duration_since(&self, earlier: Instant) -> Duration {
+            Duration::from_nanos(self.0.saturating_sub(earlier.0))
+        }
+        pub fn saturating_duration_since(&self, earlier: Instant) -> Duration {
+            self.duration_since(earlier)
+        }
+        pub fn checked_duration_since(&self, earlier: Instant) -> Option<Duration> {
+            self.0.checked_sub(earlier.0).map(Duration::from_nanos)
+        }
+        pub fn checked_add(&self, d: Duration) -> Option<Instant> {
+            self.0.checked_add(d.as_nanos() as u64).map(Instant)
+        }
+        pub fn checked_sub(&self, d: Duration) -> Option<Instant> {
+            self.0.checked_sub(d.as_nanos() as u64).map(Instant)
+        }
+    }
+    impl std::ops::Add<Duration> for Instant {
+        type Output = Instant;
+        fn add(self, d: Duration) -> Instant {
+            Instant(self.0 + d.as_nanos() as u64)
+        }
+    }
+    impl std::ops::Sub<Duration> for Instant {
+        type Output = Instant;
+        fn sub(self, d: Duration) -> Instant {
+            Instant(self.0.saturating_sub(d.as_nanos() as u64))
+        }
+    }
+    impl std::ops::Sub<Instant> for Instant {
+        type Output = Duration;
+        fn sub(self, o: Instant) -> Duration {
+            self.duration_since(o)
+        }
+    }
+    impl std::ops::AddAssign<Duration> for Instant {
+        fn add_assign(&mut self, d: Duration) {
+            self.0 += d.as_nanos() as u64;
+        }
+    }
+
+    #[derive(Clone, Copy, Debug, PartialEq, Eq, PartialOrd, Ord, Hash)]
+    pub struct SystemTime(std::time::SystemTime);
+    pub const UNIX_EPOCH: SystemTime = SystemTime(std::time::UNIX_EPOCH);
+    pub use std::time::SystemTimeError;
+    impl SystemTime {
+        pub const UNIX_EPOCH: SystemTime = UNIX_EPOCH;
+        pub fn now() -> SystemTime {
+            // simulated epoch: 2026-01-01 plus the simulated clock
+            SystemTime(std::time::UNIX_EPOCH + Duration::from_secs(1_767_225_600) + Duration::from_nanos(read_clock()))
+        }
+        pub fn duration_since(&self, earlier: SystemTime) -> Result<Duration, SystemTimeError> {
+            self.0.duration_since(earlier.0)
+        }
+        pub fn elapsed(&self) -> Result<Duration, SystemTimeError> {
+            SystemTime::now().0.duration_since(self.0)
+        }
+        pub fn checked_add(&self, d: Duration) -> Option<SystemTime> {
+            self.0.checked_add(d).map(SystemTime)
+        }
+        pub fn checked_sub(&self, d: Duration) -> Option<SystemTime> {
+            self.0.checked_sub(d).map(SystemTime)
+        }
+    }
+    impl std::ops::Add<Duration> for SystemTime {
+        type Output = SystemTime;
+        fn add(self, d: Duration) -> SystemTime {
+            SystemTime(self.0 + d)
+        }
+    }
+    impl std::ops::Sub<Duration> for SystemTime {
+        type Output = SystemTime;
+        fn sub(self, d: Duration) -> SystemTime {
+            SystemTime(self.0 - d)
+        }
+    }
+}
